@@ -9,7 +9,7 @@ props="$@"; [ -z "$props" ] && props=$(for i in $(seq -w 1 20); do echo C$i; don
 run() { # dir patch -> file of keys
   d=$(mktemp -d /tmp/lalpair.XXXXXX); rsync -a --exclude .git /repo/ $d/
   (cd $d && patch -p1 -s --no-backup-if-mismatch < $1 >/dev/null 2>&1) || { echo "PATCH FAILS $1"; rm -rf $d; return; }
-  for p in $props; do ( /verif/bin/lalcheck -prop $p -repo $d -out $d/.ev$p > $d/.out$p 2>&1 ) & done; wait
+  for p in $props; do ( ${LALCHECK_BIN:-/verif/bin/lalcheck} -prop $p -repo $d -out $d/.ev$p > $d/.out$p 2>&1 ) & done; wait
   cat $d/.out* | grep -a "^  violated\|^UNDECIDED" | sed 's/^  violated //' | awk '{print $1}' | sort -u > $2
   cat $d/.out* | grep -a "^  violated\|^UNDECIDED" | sed 's/^  violated //' > $2.full
   rm -rf $d
